@@ -52,6 +52,9 @@ def run_spec(ctx, mons, spec):
     if rs["picture"] is None or rt["picture"] is None:
         ctx.judge(stratum, INCONCLUSIVE, case, reason="document not parseable: %s / %s" % (rs["parse_error"], rt["parse_error"]))
         return
+    if rt["picture"].defects or rs["picture"].defects:
+        ctx.judge(stratum, VIOLATED, case, finding=[{"rule": "document-defect", "svg": rs["picture"].defects[:3], "tikz": rt["picture"].defects[:3]}], key="document-defect")
+        return
     geo = OX.Geo(spec)
     ms, p1 = OX.match(spec, rs["picture"], "svg", EC.data_text_fn(spec), geo)
     mt, p2 = OX.match(spec, rt["picture"], "tikz", EC.data_text_fn(spec), geo)
